@@ -1,4 +1,5 @@
 import QcelVerif.Model.Kabsch
+import QcelVerif.Model.KabschUnique
 import QcelVerif.Model.B787
 import QcelVerif.Model.UnoOrderings
 import QcelVerif.Lib.Proto
@@ -19,6 +20,10 @@ Line-protocol driver for the C12 models (all numbers are exact rationals `p/q`).
 * `O|cut|ref|cur|red#red#…`   the candidate atom orderings of `_plausible_atom_orderings(…, 'hungarian_uno')`
     from the per-class reduced matrices (classes in order of first appearance in `ref`)
 * `M|ref|cur|RRnre|CCnre`   the per-class cost matrices `classCost` (exact) from the reciprocal-distance matrices
+* `N|R`   the exact margin of non-collinearity of a geometry about its centroid (`Model/KabschUnique.lean`):
+    `g = collinearityMargin R = max_{i<j} |(r_i − r̄) × (r_j − r̄)|²` (the quantity of `Props/C12Unique.lean`,
+    `maxCross2_pos_iff`, `recovery_rotation_close`), a pair `i,j` attaining it (re-verified by the harness), the
+    square norms `|r_i − r̄|²`, `|r_j − r̄|²` of that pair and `lmax2 = max_k |r_k − r̄|²`
 -/
 open QcelVerif QcelVerif.Proto QcelVerif.Kabsch
 
@@ -163,6 +168,22 @@ def stepM (f : List String) : String :=
     | _, _, _, _ => "bad-op"
   | _ => "bad-op"
 
+def stepN (f : List String) : String :=
+  match f with
+  | [r] =>
+    match (parseRats? r).bind toV3s with
+    | some R =>
+      if R.isEmpty then "bad-op" else
+      let c := centre R
+      let g := maxCross2 c
+      let (g', i, j) := argCross2 0 c (0, 0, 0)
+      let ni := match c[i]? with | some v => v.nrm2 | none => 0
+      let nj := match c[j]? with | some v => v.nrm2 | none => 0
+      let lmax := c.foldl (fun m v => max m v.nrm2) 0
+      s!"ok g={sr g} arg={sr g'} i={i} j={j} ni2={sr ni} nj2={sr nj} lmax2={sr lmax}"
+    | none => "bad-op"
+  | _ => "bad-op"
+
 def stepC12 (line : String) : String :=
   match splitOnChar line '|' with
   | "K" :: f => stepK f
@@ -171,6 +192,7 @@ def stepC12 (line : String) : String :=
   | "U" :: f => stepU f
   | "O" :: f => stepO f
   | "M" :: f => stepM f
+  | "N" :: f => stepN f
   | _ => "bad-op"
 
 def main : IO Unit := mainLoop stepC12
